@@ -1,8 +1,9 @@
 """C06 — responses are accepted only as successful answers to outstanding requests."""
 import itertools
 import os
+import tempfile
 
-from harness import common, env, render, spaccept, world
+from harness import common, env, fixtures, render, spaccept, world
 from harness.common import Raw, cq, cq_opt
 
 PID = "C06"
@@ -10,7 +11,7 @@ PARALLEL = 12
 IMPORTS = "From Verif Require Import C06.Model C06.Spec C06.Corr."
 CASE_TYPE = "C06.Corr.case"
 RUNNER = "C06.Corr.run"
-FINDING_CLASSES = {}
+FINDING_CLASSES = {2: "C06-F2", 3: "C06-F3"}
 RULE = ("complete products per group with the other groups at their baseline: correlation = Response InResponseTo(4) x "
         "SubjectConfirmation shapes (0-2 confirmations, each {no data, data without InResponseTo, outstanding id, other "
         "outstanding id, unknown id}) x allow_unsolicited(2) x outstanding set {empty, one, many}, completely for BOTH "
@@ -18,9 +19,17 @@ RULE = ("complete products per group with the other groups at their baseline: co
         "reduced correlation product (InResponseTo(4) x 8 confirmation shapes x allow(2) x outstanding{None, many}) "
         "for every other delivery: POST deflated, each browser binding x Destination {absent, the other binding's endpoint, "
         "a foreign URL}, HTTP-Artifact x Destination(2), SOAP, PAOS (outstanding=None: the caller passes no dict); status = all table "
-        "codes + unknown + absent second level x 3 top-level codes x {POST, Redirect, SOAP}; versions "
+        "codes + unknown + absent second level x 3 top-level codes x {POST, Redirect, SOAP}; top-level status VALUES around "
+        "the defined ones (every proper prefix and suffix of the Success URN, its colon-separated pieces, case variants, "
+        "one-character extensions, blanks, the same at colon boundaries for the other top-level codes) over POST, the boundary "
+        "ones also over Redirect / SOAP / POST encrypted in rotation; versions "
         "{2.0,1.1,2.1,3.0,1.0,0.9,10.0} x all 5 bindings; shape = assertions{0,1,2} x AuthnStatements{0,1,2} x "
-        "subject{absent,present} x {POST, Redirect, Artifact, SOAP}; plus seeded random mixtures across groups and deliveries. "
+        "subject{absent,present} x {POST, Redirect, Artifact, SOAP}; ENCRYPTED assertions: the complete correlation product "
+        "(4 x 31 x 2, outstanding many; the 0/1-confirmation shapes also with outstanding one) with the single assertion "
+        "delivered as EncryptedAssertion over POST (part of them with the assertion signed as well), reduced over Redirect / Artifact / SOAP; two assertions {clear+encrypted, "
+        "encrypted+clear, both encrypted} x confirmations of each from {answers req-1, answers req-2, no InResponseTo, "
+        "[req-2, req-1]} x InResponseTo{req-1, unknown, absent} x allow(2); three assertions; shape / status / version with "
+        "the assertion encrypted; plus seeded random mixtures across groups, deliveries and encryption flags. "
         "non-trivial = distinct abstract input differing from the all-valid baseline")
 TRUSTED = ["source-to-Gallina translator harness/py2coq.py + coq/theories/Base/Py.v (check_subject_confirmation_in_response_to is "
            "re-translated from the source text on every run; c06_source_check_sc_irt proves it equal to the model)",
@@ -28,6 +37,8 @@ TRUSTED = ["source-to-Gallina translator harness/py2coq.py + coq/theories/Base/P
 ASSUMPTIONS = ["signature, times, audience, recipient valid in every case; the message is encoded the way the named binding "
                "prescribes (POST also deflated, which Entity.unravel accepts)",
                "the SP registers one HTTP-POST and one HTTP-Redirect assertion consumer endpoint and none for other bindings",
+               "encrypted assertions are encrypted for the SP's own certificate (RSA-OAEP + AES-128-CBC through the stand-in) and "
+               "decrypt; the Response is always signed by the IdP, the assertions are signed as well in part of the cases",
                "request ids and contexts are non-empty ASCII strings; InResponseTo values are NCNames (anything else, the empty string "
                "included, is refused by the schema validation in front of the signature check: SignatureError)"]
 
@@ -85,9 +96,14 @@ def regenerate_tables(ctx):
 
 
 def mk(irt="req-1", scs=(("data", "req-1"),), allow=False, out="one", top=SUCCESS, second=None, version="2.0",
-       n_assert=1, n_authn=1, subject=True, tag="", delivery=FULL_DELIVERIES[0]):
-    return {"via": delivery[0], "enc": delivery[1], "dest": delivery[2], "irt": irt, "scs": [list(s) for s in scs], "allow": allow, "out": out, "top": top, "second": second,
-            "version": version, "n_assert": n_assert, "n_authn": n_authn, "subject": subject, "tag": tag}
+       n_assert=1, n_authn=1, subject=True, tag="", delivery=FULL_DELIVERIES[0], sealed=(), scs2=None, sign_a=False):
+    """sealed: which assertions (by position) arrive as EncryptedAssertion (missing = in clear); scs: confirmations of
+    the first assertion, scs2: of every further one (None = the same); sign_a: the assertions are signed as well."""
+    return {"via": delivery[0], "enc": delivery[1], "dest": delivery[2], "irt": irt, "scs": [list(s) for s in scs],
+            "allow": allow, "out": out, "top": top, "second": second,
+            "version": version, "n_assert": n_assert, "n_authn": n_authn, "subject": subject, "tag": tag,
+            "sealed": [bool(b) for b in (list(sealed) + [False] * n_assert)[:n_assert]],
+            "scs2": None if scs2 is None else [list(s) for s in scs2], "sign_a": bool(sign_a)}
 
 
 def status_codes():
@@ -98,6 +114,41 @@ def status_codes():
     codes += ["urn:oasis:names:tc:SAML:2.0:status:Requester", "urn:oasis:names:tc:SAML:2.0:status:Bogus",
               "urn:example:unknown", None]
     return codes
+
+
+def top_variants():
+    """Top-level StatusCode values around the defined ones: (all, at_boundaries).  all = every proper prefix and
+    suffix of the Success URN, its pieces between colons, case variants, one-character extensions, and for the
+    other top-level codes the prefixes / suffixes at colon boundaries, local names and case variants.  None of
+    them IS the Success URN, so none may count as success.  (The empty value is left out: valid_instance refuses
+    it before the status is looked at - MustValueError.)"""
+    S = SUCCESS
+    others = ["urn:oasis:names:tc:SAML:2.0:status:Responder", "urn:oasis:names:tc:SAML:2.0:status:Requester",
+              "urn:oasis:names:tc:SAML:2.0:status:VersionMismatch"]
+    allv, bound = [], []
+
+    def boundary(u):
+        parts = u.split(":")
+        res = []
+        for k in range(1, len(parts)):
+            res += [":".join(parts[:k]), ":".join(parts[:k]) + ":", ":".join(parts[k:]), ":" + ":".join(parts[k:])]
+        for i in range(len(parts)):
+            for j in range(i + 1, len(parts) + 1):
+                res.append(":".join(parts[i:j]))
+        res += [u.upper(), u.lower(), u.swapcase(), u[:-len(parts[-1])] + parts[-1].lower(),
+                u[:-len(parts[-1])] + parts[-1].upper(), u + "x", u + ":", u + "/", u + " ", " " + u, "x" + u, u + u,
+                u[:-1], u[1:], u.replace("2.0", "2.00"), u.replace("2.0", "1.1"), u.replace("urn:", "urn::"),
+                "http://example.org/" + parts[-1], ":", "%", "S", "s"]
+        return res
+
+    bound += boundary(S)
+    for o in others:
+        bound += [v for v in boundary(o) if v not in bound]
+    allv += bound
+    allv += [S[:k] for k in range(1, len(S))] + [S[k:] for k in range(1, len(S))]
+    forbidden = {"", S}
+    uniq = lambda l: [v for i, v in enumerate(l) if v not in forbidden and v not in l[:i]]
+    return uniq(allv), uniq(bound)
 
 
 def generate(ctx):
@@ -116,6 +167,9 @@ def generate(ctx):
             for scs in few_shapes:
                 for allow in (False, True):
                     for out in ("none", "many"):
+                        if out == "none" and dl[2] in ("elsewhere", "redirect" if dl[0] == "post" else "post") \
+                                and dl[0] in ("post", "redirect"):
+                            continue   # misaddressed: refused whatever the outstanding set
                         cases.append(mk(irt=irt, scs=scs, allow=allow, out=out, tag="delivery", delivery=dl))
     all_dl = FULL_DELIVERIES + OTHER_DELIVERIES + RARE_DELIVERIES
     one_per_binding = FULL_DELIVERIES + [("artifact", "b64", "absent"), ("soap", "soap", "post"), ("paos", "soap", "post")]
@@ -139,14 +193,130 @@ def generate(ctx):
                     for allow in (False, True):
                         cases.append(mk(n_assert=n_assert, n_authn=n_authn, subject=subject, allow=allow, tag="shape",
                                         delivery=dl))
-    for _ in range(3000 if ctx.thorough else 500):
+    # ---- assertions delivered encrypted (loads() sees the clear ones only)
+    post, redirect = FULL_DELIVERIES
+    for irt in IRT:
+        for scs in sc_shapes:
+            for allow in (False, True):
+                for out in ("one", "many"):
+                    if out == "one" and len(scs) == 2:
+                        continue
+                    cases.append(mk(irt=irt, scs=scs, allow=allow, out=out, tag="sealed", delivery=post, sealed=(True,),
+                                    sign_a=(out == "one" or (len(scs) == 2 and scs[0] == scs[1]))))
+    for dl in (redirect, ("artifact", "b64", "absent"), ("soap", "soap", "post")):
+        for irt in IRT:
+            for scs in few_shapes:
+                for allow in (False, True):
+                    cases.append(mk(irt=irt, scs=scs, allow=allow, out="many", tag="sealed", delivery=dl, sealed=(True,)))
+    for scs in few_shapes:
+        cases.append(mk(scs=scs, out="many", tag="sealed", delivery=("post", "b64", "elsewhere"), sealed=(True,)))
+    pair = [(("data", "req-1"),), (("data", "req-2"),), (("data", None),), (("data", "req-2"), ("data", "req-1"))]
+    for flags in ((False, True), (True, False), (True, True)):
+        for a in pair:
+            for b in pair:
+                for irt in ("req-1", "unknown-9", None):
+                    for allow in (False, True):
+                        cases.append(mk(irt=irt, scs=a, scs2=b, n_assert=2, allow=allow, out="many", tag="sealed-pair",
+                                        sealed=flags))
+    for flags in ((False, False, True), (False, True, True), (True, False, True), (True, True, True)):
+        for last in (pair[0], pair[1]):
+            for allow in (False, True):
+                cases.append(mk(scs=pair[0] if flags[0] else last, scs2=last if flags[0] else pair[0], n_assert=3,
+                                allow=allow, out="many", tag="sealed-pair", sealed=flags))
+    for flags, n in (((True,), 1), ((False, True), 2), ((True, False), 2)):
+        for n_authn in (0, 1, 2):
+            for subject in (False, True):
+                for allow in (False, True):
+                    cases.append(mk(n_assert=n, n_authn=n_authn, subject=subject, allow=allow, tag="sealed-shape",
+                                    sealed=flags))
+    for top in tops:
+        for second in (None, status_codes()[1]):
+            for n_authn, subject in ((1, True), (1, False), (0, True)):
+                cases.append(mk(top=top, second=second, n_authn=n_authn, subject=subject, tag="sealed-status", sealed=(True,)))
+    for v in ["1.1", "2.1", "3.0"]:
+        cases.append(mk(version=v, tag="sealed-status", sealed=(True,)))
+    # ---- top-level status values around the defined ones (nothing but the Success URN itself is success)
+    allv, bound = top_variants()
+    code = status_codes()[1]
+    for v in allv:
+        cases.append(mk(top=v, second=None if len(cases) % 2 else code, tag="status-top"))
+    rot = ((redirect, ()), (("soap", "soap", "post"), ()), (post, (True,)))
+    for k, v in enumerate(bound):
+        dl, sealed = rot[k % 3]
+        cases.append(mk(top=v, second=code if (k // 3) % 2 else None, tag="status-top", delivery=dl, sealed=sealed))
+    for _ in range(3000 if ctx.thorough else 400):
         cases.append(mk(irt=rng.choice(IRT), scs=rng.choice(sc_shapes), allow=rng.random() < 0.4,
-                        out=rng.choice(list(OUTS)), top=rng.choice([SUCCESS, SUCCESS] + tops),
+                        out=rng.choice(list(OUTS)), top=rng.choice([SUCCESS] * 4 + tops * 2 + bound),
                         second=rng.choice(status_codes()), version=rng.choice(["2.0", "2.0", "2.0", "1.1", "2.1", "3.0"]),
                         n_assert=rng.choice([1, 1, 1, 0, 2]), n_authn=rng.choice([1, 1, 1, 0, 2]),
                         subject=rng.random() < 0.85, tag="random",
                         delivery=rng.choice(FULL_DELIVERIES * 4 + all_dl)))
+        c = cases[-1]
+        if rng.random() < 0.4:
+            c["sealed"] = [rng.random() < 0.6 for _ in range(c["n_assert"])]
+        if c["n_assert"] > 1 and rng.random() < 0.5:
+            c["scs2"] = [list(x) for x in rng.choice(sc_shapes)]
+        c["sign_a"] = rng.random() < 0.2
     return cases
+
+
+def encrypt_assertions(xml, which):
+    """Local variant of render.encrypt_assertion_in_response: wrap the top-level assertions at positions `which`
+    (counted over Assertion and EncryptedAssertion children of the Response, document order) in
+    saml:EncryptedAssertion and encrypt each for the SP's certificate; every EncryptedData gets its own Id."""
+    import xml.etree.ElementTree as ET
+
+    m = env.standin()
+    A = "{urn:oasis:names:tc:SAML:2.0:assertion}"
+    for k in sorted(which):
+        root = m._parse(xml.encode("utf-8") if isinstance(xml, str) else xml)
+        kids = [ch for ch in list(root) if ch.tag in (A + "Assertion", A + "EncryptedAssertion")]
+        a = kids[k]
+        if a.tag != A + "Assertion":
+            raise RuntimeError("assertion %d is already encrypted" % k)
+        idx = list(root).index(a)
+        root.remove(a)
+        wrap = ET.Element(A + "EncryptedAssertion")
+        wrap.append(a)
+        wrap.tail = a.tail
+        a.tail = None
+        root.insert(idx, wrap)
+        with tempfile.NamedTemporaryFile(suffix=".xml", delete=False) as f:
+            f.write(ET.tostring(root, encoding="utf-8"))
+            path = f.name
+        tmpl = render.ENC_TEMPLATE.replace("ED_verif", "ED_verif_%d" % k).replace("EK_verif", "EK_verif_%d" % k)
+        try:
+            out, _, _ = m.do_encrypt({"xml_data": path, "node_xpath": render.ASSERT_XPATH,
+                                      "pubkey_cert": fixtures.cert_path("sp")}, tmpl.encode())
+        finally:
+            os.unlink(path)
+        xml = out.decode("utf-8")
+    return xml
+
+
+def build(resp, assertions, sealed, sign_a):
+    """Like spaccept.build (Response signed by the IdP), with the encryption step between the two signing steps."""
+    axml = []
+    for a in assertions:
+        a = dict(a)
+        if sign_a:
+            a["sig_template"] = render.signature_template(a["id"])
+        axml.append(render.assertion(a))
+    r = dict(resp)
+    r["assertions_xml"] = axml
+    r["sig_template"] = render.signature_template(r["id"])
+    xml = render.response(r)
+    if sign_a:
+        for a in assertions:
+            xml = render.sign_xml(xml, "idp", render.A_ELEM, a["id"])
+    which = [k for k, b in enumerate(sealed) if b]
+    if which:
+        xml = encrypt_assertions(xml, which)
+    return render.sign_xml(xml, "idp", render.R_ELEM, r["id"])
+
+
+def case_scs(case, k):
+    return case["scs"] if k == 0 or case.get("scs2") is None else case["scs2"]
 
 
 def render_case(case):
@@ -160,7 +330,7 @@ def render_case(case):
             a["subject"] = None
         else:
             confs = []
-            for sc in case["scs"]:
+            for sc in case_scs(case, k):
                 if sc[0] == "nodata":
                     confs.append({"method": render.SCM_BEARER, "data": None})
                 else:
@@ -179,7 +349,10 @@ def render_case(case):
         del r["destination"]
     else:
         r["destination"] = DESTS[case["dest"]]
-    return spaccept.build(r, assertions, sign_response="idp")
+    sealed = case.get("sealed") or []
+    if not any(sealed) and not case.get("sign_a"):
+        return spaccept.build(r, assertions, sign_response="idp")
+    return build(r, assertions, sealed, case.get("sign_a"))
 
 
 def observe(case):
@@ -201,15 +374,17 @@ def coq_case(case, obs):
         v = "(StatusErr %s)" % cq(obs["status_err"])
     else:
         v = "NoId"
-    scs = []
-    for sc in case["scs"]:
-        scs.append(Raw("NoData") if sc[0] == "nodata" else Raw("(Data %s)" % cq_opt(sc[1])))
-    a = "{| n_authn := %d%%nat; subject := %s |}" % (case["n_authn"], ("(Some %s)" % cq(scs)) if case["subject"] else "None")
+    def one(k):
+        scs = [Raw("NoData") if sc[0] == "nodata" else Raw("(Data %s)" % cq_opt(sc[1])) for sc in case_scs(case, k)]
+        return "{| n_authn := %d%%nat; subject := %s |}" % (
+            case["n_authn"], ("(Some %s)" % cq(scs)) if case["subject"] else "None")
+
+    sealed = (list(case.get("sealed") or []) + [False] * case["n_assert"])[:case["n_assert"]]
     maj, mi = case["version"].split(".")
-    return "C06.Corr.mk %s %s %s %s %s (%d%%nat, %d%%nat) %s %s %s %s" % (
-        COQ_BINDING[case["via"]], COQ_DEST[case["dest"]],
+    return "C06.Corr.mk %s %s %s %s %s %s (%d%%nat, %d%%nat) %s %s %s %s" % (
+        COQ_BINDING[case["via"]], COQ_DEST[case["dest"]], cq([bool(b) for b in sealed]),
         cq(bool(case["allow"])), cq([(k, v2) for k, v2 in (OUTS[case["out"]] or [])]), cq_opt(case["irt"]), int(maj), int(mi),
-        cq(case["top"]), cq_opt(case["second"]), "[" + "; ".join([a] * case["n_assert"]) + "]", v)
+        cq(case["top"]), cq_opt(case["second"]), "[" + "; ".join(one(k) for k in range(case["n_assert"])) + "]", v)
 
 
 BASELINE = mk()
